@@ -18,7 +18,7 @@ func init() {
 	register(&Property{
 		ID:    "C17",
 		Level: "exploration",
-		Rule: "case i = a valid base configuration (1..2 services from {Kitchen, Router, Sel, One}, valid service/default options, 0..3 non-overlapping WithRules rules) plus, in 60% of the cases, one mutation with a known reason " +
+		Rule: "case i = a valid base configuration (1..2 services from {Kitchen, Router, Sel, One}, valid service/default options, 0..3 non-overlapping WithRules rules; a service whose bindings come from WithRules is REST-only in a third of the cases) plus, in 60% of the cases, one mutation with a known reason " +
 			"to be refused: unknown codec / compression name, empty protocol or codec set, invalid protocol value, the same service twice, template syntax errors (by the reference grammar), two bindings with the same HTTP method and template, " +
 			"body / response_body / variable selectors naming a missing, nested, repeated or map field, selector matching no method, missing selector, wildcard not at a name boundary or not at the end, nested additional_bindings, " +
 			"REST-only service without bindings, zero limits. oracle: refused classes => err != nil and a nil *Transcoder; everything else => err == nil and then SERVED AS CONFIGURED: every binding reachable through the URL rendered " +
@@ -138,7 +138,36 @@ func genC17(r *rand.Rand) *c17Cfg {
 			k++
 		}
 	}
+	// a service without annotations of its own whose bindings all come from WithRules may be REST-only
+	for _, s := range cfg.svcs {
+		if s.name != "Kitchen" && len(cfg.boundBy(s)) > 0 && chance(r, 35) {
+			s.protos = []string{"rest"}
+			s.codecs = pick(r, [][]string{{"json"}, {"proto", "json"}})
+		}
+	}
 	return cfg
+}
+
+func (cfg *c17Cfg) svcOf(m *MethodInfo) *c17Svc {
+	for _, s := range cfg.svcs {
+		if m.Desc.Parent() == s.sd {
+			return s
+		}
+	}
+	return nil
+}
+
+// boundBy lists the methods of s that some WithRules rule binds.
+func (cfg *c17Cfg) boundBy(s *c17Svc) []*MethodInfo {
+	var out []*MethodInfo
+	for _, rule := range cfg.rules {
+		for _, m := range cfg.ruleFor[rule] {
+			if m.Desc.Parent() == s.sd {
+				out = append(out, m)
+			}
+		}
+	}
+	return out
 }
 
 func (cfg *c17Cfg) hasSvc(name string) *c17Svc {
@@ -376,6 +405,13 @@ func runC17(c *Ctx, i int, r *rand.Rand) {
 			o := c17Probe(t, rr)
 			c.Eval()
 			c.Count("binding-probes")
+			if svc := cfg.svcOf(m); svc != nil && len(svc.protos) == 1 && svc.protos[0] == "rest" {
+				// a REST-only service is handed the REST request itself: recognise the rule by its unique literal prefix
+				_, tmpl := rulePattern(rule)
+				if prefix := tmpl[:strings.Index(tmpl, "{")]; o.method != "" && strings.HasPrefix(o.method, prefix) {
+					continue
+				}
+			}
 			if o.method != m.Path {
 				c.Violate(i, "binding-not-served-as-configured", fmt.Sprintf("rule %s %s declared on %s: request %s %s observed %s\n%s", b.HTTPMethod, b.Template, m.Path, rr.Method, rr.RawPath, o, cfg.describe()))
 			}
@@ -398,11 +434,37 @@ func runC17(c *Ctx, i int, r *rand.Rand) {
 	// the rule URL reaches only the named method (checked above); and (c) per-service options beat defaults
 	for _, s := range cfg.svcs {
 		m := pick(r, s.ms)
+		restOnly := len(s.protos) == 1 && s.protos[0] == "rest"
+		if restOnly {
+			// only methods with a binding can be reached at all
+			bound := cfg.boundBy(s)
+			if len(bound) == 0 {
+				continue
+			}
+			m = pick(r, bound)
+		}
 		if m.Stream != stUnary {
 			continue
 		}
 		form := pick(r, []ClientForm{FConnectUnary, FGRPC, FGRPCWeb})
 		creq := &ClientReq{Form: form, M: m, Codec: pick(r, []string{"proto", "json"}), Msgs: []proto.Message{genMessage(r, m.In(), genOpts{density: 3})}, HTTP2: true}
+		if restOnly {
+			// the request must be expressible under the method's binding
+			var fit proto.Message
+			for _, rule := range cfg.rules {
+				if len(cfg.ruleFor[rule]) > 0 && cfg.ruleFor[rule][0] == m {
+					if b, berr := bindingFromRule(m.Desc, rule); berr == nil {
+						fit, _, _ = genForBinding(r, b, "")
+					}
+					break
+				}
+			}
+			if fit == nil {
+				continue
+			}
+			creq.Msgs = []proto.Message{fit}
+			c.Count("rest-only-by-rules-probes")
+		}
 		script := &BackendScript{Msgs: []proto.Message{genMessage(r, m.Out(), genOpts{density: 3})}}
 		built, berr := creq.Build(r)
 		if berr != nil {
